@@ -86,6 +86,7 @@ pub fn s2_bindings() -> Vec<(char, &'static str)> {
         ('h', "্"), ('c', "ঁ"), ('n', "ং"), ('j', "\u{200D}"), ('J', "\u{200C}"), ('1', "১"), ('m', "-"), ('.', "।"), ('l', "ৗ"),
         ('x', "্র"), ('y', "্য"), ('z', "র্"), ('K', "ক্ষ"), ('\'', "'"), ('"', "\""), ('(', "("), (')', ")"), (':', ":"),
         ('g', "গ"), ('s', "ষ"), ('b', "ব"), ('d', "দ"),
+        ('^', "^"),          // a word character that the layout passes through unchanged (typed text = composed text)
     ]
 }
 
